@@ -168,6 +168,16 @@ func vfC13Setup(zoneAware bool, symHist bool, warmLookback bool) (old, fresh *Ri
 	}
 	vfAssumeDistinctTokens(next)
 
+	if vfC13BlankIDs {
+		// ring values written by older lifecyclers carry no Id inside the entries;
+		// the client fills it in from the map key
+		for _, dd := range []*Desc{prev, next} {
+			for id, e := range dd.Ingesters {
+				e.Id = ""
+				dd.Ingesters[id] = e
+			}
+		}
+	}
 	tenant = vfTenants[0]
 	size = 1 + vfChoice("size", 2)
 	lookS = int64(3600)
@@ -184,8 +194,13 @@ func vfC13Setup(zoneAware bool, symHist bool, warmLookback bool) (old, fresh *Ri
 	return
 }
 
+// vfC13BlankIDs: the descriptors handed to the clients have empty Id fields.
+var vfC13BlankIDs bool
+
 func HarnessC13_Step() {
 	zoneAware := vfChoice("za", 2) == 1
+	vfC13BlankIDs = vfChoice("ids_unset", 2) == 1
+	defer func() { vfC13BlankIDs = false }()
 	old, fresh, tenant, size, _, _ := vfC13Setup(zoneAware, false, false)
 	// replica sets
 	key := vfU32("key")
